@@ -203,11 +203,29 @@ class Roles:
             self._outside_container(self.callers_of_any(self.sd_method('InsertFirstDataItem'), self.global_reach)),
             'caller of InsertFirstDataItem on the global path'))
 
+    def best_requesters(self) -> List[FuncInfo]:
+        """Callers of the best-interval request on the global path, outside the container classes."""
+        return self._outside_container(
+            self.callers_of_any(self.sd_method('GetDataItemWithMaxGlobalR'), self.global_reach))
+
     @property
     def selection(self) -> FuncInfo:
-        return self.memo('selection', lambda: self._unique(
-            'selection routine', self.callers_of_any(self.sd_method('GetDataItemWithMaxGlobalR'), self.global_reach),
-            'caller of GetDataItemWithMaxGlobalR on the global path'))
+        def build():
+            cs = self.best_requesters()
+            if len(set(cs)) > 1:
+                # the selection routine is the requester that builds the new search item; any other requester is
+                # reported by the who-may-pop rule (R02.10) instead of hiding behind an ambiguity
+                item = self.ix.cls('SearchDataItem')
+                makers = []
+                for c in set(cs):
+                    owners = {h.qualname for h in self.helpers_of(c)}
+                    if any(o.kind == 'inst' and o.cls is not None and o.cls.is_subclass_of(item) and
+                           o.scope == 'func' and o.owner in owners for o in self.pta._objs.values()):
+                        makers.append(c)
+                if len(makers) == 1:
+                    cs = makers
+            return self._unique('selection routine', cs, 'caller of GetDataItemWithMaxGlobalR on the global path')
+        return self.memo('selection', build)
 
     @property
     def renewal(self) -> FuncInfo:
